@@ -58,7 +58,7 @@ def run(ctx, rep):
         if rule is None:
             continue
         nv += 1
-        rep.bad(rule, COMPILER + '::' + v['method'], '%s %s' % (v['oblig'], v['construct']), v['text'], 'src/compiler.rs')
+        rep.bad(rule, COMPILER + '::' + v['method'], '%s %s' % (v['oblig'], v['construct']), v['text'], 'src/compiler.rs', key='%s %s' % (v['oblig'], v['kc']))
     # every arm path examined is an obligation instance that holds unless reported
     arms = {}
     for a in R['arms']:
@@ -76,9 +76,9 @@ def run(ctx, rep):
     # cross-check: syntactic emit sites vs MIR call sites per method (nothing hides behind a macro / another module)
     total = 0
     for meth, kinds in sorted(R['sites'].items()):
-        fn = F.fn('compiler::Compiler::' + meth)
+        fn = F.transparent_fns.get('compiler::Compiler::' + meth) or F.fn('compiler::Compiler::' + meth)
         for kind, n in kinds.items():
-            mir_n = sum(1 for b, t in fn.calls() if callee_name(t) == 'compiler::Compiler::' + kind)
+            mir_n = sum(1 for b, t in fn.own_calls() if callee_name(t) == 'compiler::Compiler::' + kind)
             total += n
             if mir_n != n:
                 raise CheckerError('cross-check failed: %s has %d syntactic %s sites but %d MIR call sites' % (meth, n, kind, mir_n))
@@ -180,6 +180,77 @@ def check_halt(ctx, rep):
         rep.bad('R02.5', fn.path, 'Ok path ends in Halt', 'no Ok path found', fn.loc())
 
 
+def byte_of(v, env):
+    """(base value, k) when v is byte k (0 = least significant) of a 16-bit base value, in any of the usual spellings"""
+    v = uncast(v)
+    if v[0] == 'ref' and v[1] in env:
+        return byte_of(env[v[1]], env)
+    # x & 0xff  /  (x >> 8) & 0xff  /  x >> 8
+    if is_binop(v, 'BitAnd') and int_of(v[3]) == 255:
+        inner = uncast(v[2])
+        if is_binop(inner, 'Shr') and int_of(inner[3]) == 8:
+            return (uncast(inner[2]), 1)
+        return (inner, 0)
+    if is_binop(v, 'Shr') and int_of(v[3]) == 8:
+        return (uncast(v[2]), 1)
+    # x.to_le_bytes()[k] / to_be_bytes()[1-k], by indexing or by destructuring
+    k = None
+    src = None
+    if v[0] == 'index' and int_of(v[2]) is not None:
+        src, k = uncast(v[1]), int_of(v[2])
+    elif v[0] == 'proj' and 'const_index' in str(v[2]):
+        import re
+        m = re.search(r"'offset': (\d+)", str(v[2])) or re.search(r"'const_index': (\d+)", str(v[2]))
+        src, k = uncast(v[1]), int(m.group(1)) if m else None
+    elif v[0] == 'call' and v[1].endswith('Index<I>>::index') and int_of(v[2][1]) is not None:
+        src, k = uncast(v[2][0]), int_of(v[2][1])
+    if src is not None and k is not None:
+        while src[0] == 'ref' and src[1] in env:
+            src = uncast(env[src[1]])
+        if src[0] == 'call' and src[1].endswith('::to_le_bytes'):
+            return (uncast(src[2][0]), k)
+        if src[0] == 'call' and src[1].endswith('::to_be_bytes'):
+            return (uncast(src[2][0]), 1 - k)
+        return None
+    if v[0] in ('local',):
+        return (v, 0)       # `x as u8`: the truncating cast keeps the low byte
+    return None
+
+
+def bytes_joined(r, env):
+    """[low byte source, high byte source] of a 16-bit value assembled from two bytes"""
+    r = uncast(r)
+    if is_binop(r, 'BitOr'):
+        parts = [uncast(r[2]), uncast(r[3])]
+        hi = [x for x in parts if is_binop(x, 'Shl') and int_of(x[3]) == 8]
+        lo = [x for x in parts if not is_binop(x, 'Shl')]
+        if len(hi) == 1 and len(lo) == 1:
+            return [lo[0], uncast(hi[0][2])]
+        return None
+    if r[0] == 'call' and r[1].endswith(('::from_le_bytes', '::from_be_bytes')) and r[2]:
+        a = uncast(r[2][0])
+        if a[0] == 'agg' and len(a[3]) == 2:
+            return list(a[3]) if r[1].endswith('from_le_bytes') else [a[3][1], a[3][0]]
+    return None
+
+
+def stream_pos(v, p):
+    """which byte of the instruction stream (0 = first after the opcode) a value read by the VM is"""
+    v = uncast(v)
+    if v[0] == 'call' and v[1] == 'vm::VM::read_u8':
+        reads = [c[0] for c in p.calls if c[1] == 'vm::VM::read_u8']
+        return reads.index(v[3]) if v[3] in reads else None
+    s_ = show(v)
+    if v[0] == 'index' and int_of(v[2]) is not None and 'get_unchecked' in s_ and '.ip' in s_:
+        return int_of(v[2])
+    if v[0] in ('index', 'deref', 'call', 'proj'):
+        import re
+        m = re.search(r'(\d)_usize', s_)
+        if m and ('get_unchecked' in s_ or 'index' in s_.lower()):
+            return int(m.group(1))
+    return None
+
+
 def check_primitives(ctx, rep):
     F = ctx.facts()
     C = 'compiler::Compiler::'
@@ -208,52 +279,42 @@ def check_primitives(ctx, rep):
     fn, ps = paths('emit_u8')
     ok = len(ps) == 1 and [c[1] for c in ps[0].calls] == [PUSH] and ps[0].calls[0][2][1] == ('local', 2) and not self_writes(ps[0])
     rep.ob(ok, 'R02.8', fn.path, 'contract', 'appends exactly one operand byte and leaves last_instruction', fn.loc())
-    # emit_u16 (little endian) vs VM::read_u16
+    # emit_u16 (little endian) vs VM::read_u16: the k-th byte written is byte k of the value, the k-th byte read becomes byte k
     fn, ps = paths('emit_u16')
     ok = len(ps) == 1
-    lo_hi = None
     if ok:
         pushes = [c for c in ps[0].calls if c[1] == PUSH]
-        ok = len(pushes) == 2 and len(ps[0].calls) == 2 and not self_writes(ps[0])
+        ok = len(pushes) == 2 and not self_writes(ps[0]) and all(c[1] == PUSH or c[1].endswith(('::to_le_bytes', '::to_be_bytes')) for c in ps[0].calls)
         if ok:
-            a, b = uncast(pushes[0][2][1]), uncast(pushes[1][2][1])
-            first_lo = is_binop(a, 'BitAnd') and a[2] == ('local', 2) and int_of(a[3]) == 255
-            second_hi = is_binop(b, 'BitAnd') and is_binop(b[2], 'Shr') and b[2][2] == ('local', 2) and int_of(b[2][3]) == 8 and int_of(b[3]) == 255
-            ok = first_lo and second_hi
+            ok = byte_of(pushes[0][2][1], ps[0].env) == (('local', 2), 0) and byte_of(pushes[1][2][1], ps[0].env) == (('local', 2), 1)
     rd = F.fn('vm::VM::read_u16')
     rps = [p for p in AbsInt(F, rd).run() if p.exit == 'return']
-    okr = False
-    if rps:
-        r = rps[0].env.get('_0')
-        # bytes[0] | bytes[1] << 8
-        if is_binop(r, 'BitOr'):
-            parts = [r[2], r[3]]
-            txt = show(r)
-            okr = any(is_binop(uncast(x), 'Shl') and int_of(uncast(x)[3]) == 8 for x in parts)
-            hi = [x for x in parts if is_binop(uncast(x), 'Shl')]
-            lo = [x for x in parts if not is_binop(uncast(x), 'Shl')]
-            if okr and hi and lo:
-                # the shifted byte is index 1, the other index 0
-                okr = '1_usize' in show(hi[0]) and '0_usize' in show(lo[0])
-        # the instruction pointer advances by two
-        ipw = [w for w in rps[0].writes if w[1].endswith('.f4') or 'ip' in str(w[3]['place'])]
-    rep.ob(ok and okr, 'R02.8', fn.path, 'contract', 'emit_u16 appends low byte then high byte; VM::read_u16 reads byte0 | byte1 << 8', fn.loc())
+    okr = len(rps) == 1
+    if okr:
+        parts = bytes_joined(rps[0].env.get('_0'), rps[0].env)
+        okr = parts is not None and [stream_pos(x, rps[0]) for x in parts] == [0, 1]
+    rep.ob(ok and okr, 'R02.8', fn.path, 'contract', 'emit_u16 appends the low byte then the high byte of its argument; VM::read_u16 assembles byte 0 as low and byte 1 as high', fn.loc())
     # change_jump_operand_at
     fn, ps = paths('change_jump_operand_at')
     ok = bool(ps)
     for p in ps:
         idxm = [c for c in p.calls if c[1].endswith('IndexMut<I>>::index_mut')]
-        vals = []
-        for c in idxm:
-            vals.append(c[2][1])
 
         def is_idx_plus(v, n):
             v = uncast(v)
             if v[0] == 'field' and v[1][0] == 'binop' and v[1][1] == 'AddWithOverflow':
                 return v[1][2] == ('local', 2) and int_of(v[1][3]) == n
             return is_binop(v, 'Add') and v[2] == ('local', 2) and int_of(v[3]) == n
-        ok = ok and len(idxm) == 2 and is_idx_plus(vals[0], 1) and is_idx_plus(vals[1], 2) and not [w for w in self_writes(p) if 'f3' in w[0]]
-    rep.ob(ok, 'R02.8', fn.path, 'contract', 'overwrites exactly bytes idx+1 and idx+2 and nothing else', fn.loc())
+        # the values stored through the two element references: byte 0 at idx+1, byte 1 at idx+2
+        stored = {}
+        for c in idxm:
+            for w in p.writes:
+                if w[1] == (c[3] or '') + '.*':
+                    stored[id(c)] = w[2]
+        okb = len(idxm) == 2 and all(id(c) in stored for c in idxm) and \
+            byte_of(stored[id(idxm[0])], p.env) == (('local', 3), 0) and byte_of(stored[id(idxm[1])], p.env) == (('local', 3), 1)
+        ok = ok and len(idxm) == 2 and is_idx_plus(idxm[0][2][1], 1) and is_idx_plus(idxm[1][2][1], 2) and okb and not [w for w in self_writes(p) if 'f3' in w[0]]
+    rep.ob(ok, 'R02.8', fn.path, 'contract', 'overwrites exactly bytes idx+1 and idx+2 (low byte, high byte of the value) and nothing else', fn.loc())
     # last_instruction_is: pure
     fn, ps = paths('last_instruction_is')
     ok = bool(ps) and all(not self_writes(p) and all(c[1].endswith('::eq') or c[1] == 'drop' for c in p.calls) for p in ps)
